@@ -14,7 +14,7 @@ var webBundleIdSuffix = []byte{0x00, 0x01, 0x02}
 // combined with a 3-byte long suffix and transformed to lowercase. More information:
 // https://github.com/WICG/isolated-web-apps/blob/main/Scheme.md#signed-web-bundle-ids
 func GetWebBundleId(ed25519publicKey ed25519.PublicKey) string {
-	keyWithSuffix := append([]byte(ed25519publicKey), webBundleIdSuffix...)
+	keyWithSuffix := append(append([]byte{}, ed25519publicKey...), webBundleIdSuffix...)
 	verifhook.Point("webbundleid.GetWebBundleId.appended")
 
 	// StdEncoding is the standard base32 encoding, as defined in RFC 4648.
